@@ -333,39 +333,36 @@ MIX_NAMES = S.ALL_GATES + ["H", "H", "RX", "RY", "RY", "CRY", "CH", "XX"]     # 
 
 
 @st.composite
-def progs(draw, width, max_unitary, max_meas, depth, bare, names=None, angle=None, prelude=False):
+def progs(draw, width, max_unitary, max_meas, depth, bare, names=None, angle=None, prelude=False, min_meas=0):
     """A gate list on `width` qubits with up to max_unitary unitary gates and up to max_meas MEASURE/CMEASURE gates at
     arbitrary positions. depth = remaining dictionary nesting allowed; bare = CMEASURE without dictionary allowed.
     prelude: optionally start with H / RY gates on a random subset of qubits (so that outcomes are not all certain)."""
     names = names or MIX_NAMES
     kinds = ["M", "M", "D", "D", "B"] if bare else ["M", "M", "D", "D"]
-    slot = st.one_of(st.just("U"), st.just("U"), st.sampled_from(kinds)) if max_meas > 0 else st.just("U")
-    slots = draw(st.lists(slot, min_size=0, max_size=max_unitary + max_meas))
-    items, nu, nm = [], 0, 0
-    if prelude and draw(st.integers(0, 3)) > 0:
+    pre = []
+    if prelude and draw(st.integers(0, 5)) > 0:
         for q in draw(st.lists(st.integers(0, width - 1), unique=True, min_size=1, max_size=width)):
             if draw(st.booleans()):
-                items.append({"n": "H", "t": [q], "c": None, "p": None})
+                pre.append({"n": "H", "t": [q], "c": None, "p": None})
             else:
-                items.append({"n": "RY", "t": [q], "c": None, "p": draw(st.floats(0.3, 2.8))})
-    for k in slots:
-        if k == "U":
-            if nu < max_unitary:
-                items.append(draw(S.gate_recs(width, names=names, angle=angle)))
-                nu += 1
-            continue
-        if nm >= max_meas:
-            continue
-        nm += 1
+                pre.append({"n": "RY", "t": [q], "c": None, "p": draw(st.floats(0.3, 2.8))})
+    uni = draw(st.lists(S.gate_recs(width, names=names, angle=angle), min_size=0, max_size=max_unitary))
+    ms = []
+    for k in draw(st.lists(st.sampled_from(kinds), min_size=min_meas, max_size=max_meas)):
         q = draw(st.integers(0, width - 1))
         if k == "D" and depth > 0:
-            items.append({"n": "CMEASURE", "t": [q], "c": None, "p": None,
-                          "d": {"0": draw(progs(width, 2, 1, depth - 1, bare, names, angle)),
-                                "1": draw(progs(width, 2, 1, depth - 1, bare, names, angle))}})
+            g = {"n": "CMEASURE", "t": [q], "c": None, "p": None,
+                 "d": {"0": draw(progs(width, 2, 1, depth - 1, bare, names, angle)),
+                       "1": draw(progs(width, 2, 1, depth - 1, bare, names, angle))}}
         elif k == "B":
-            items.append({"n": "CMEASURE", "t": [q], "c": None, "p": None})
+            g = {"n": "CMEASURE", "t": [q], "c": None, "p": None}
         else:
-            items.append(_meas(q))
+            g = _meas(q)
+        ms.append((draw(st.integers(0, len(uni))), g))
+    items = list(uni)
+    for pos, g in sorted(ms, key=lambda x: -x[0]):      # insert from the back so that positions stay valid
+        items.insert(pos, g)
+    items = pre + items
     return items
 
 
@@ -378,7 +375,7 @@ def _angles():
 def measure_cases(draw, max_width=4, max_unitary=10, max_meas=4):
     """MEASURE-only circuits."""
     width = draw(st.integers(1, max_width))
-    gates = draw(progs(width, max_unitary, max_meas, 0, False, angle=_angles(), prelude=True))
+    gates = draw(progs(width, max_unitary, max_meas, 0, False, angle=_angles(), prelude=True, min_meas=1))
     if not any(g["n"] == "MEASURE" for g in gates):
         gates.insert(draw(st.integers(0, len(gates))), _meas(draw(st.integers(0, width - 1))))
     nq = width if draw(st.booleans()) else None
@@ -396,7 +393,12 @@ def controls(draw, width, depth, kind):
                                              "1": draw(progs(width, 3, 1, depth, False, angle=ang))}}
     if kind == "func_rus":
         q = draw(st.integers(0, width - 1))
-        retry = draw(st.lists(S.gate_recs(width, angle=ang), min_size=0, max_size=3))
+        # the retry block re-prepares the measured qubit (otherwise a failure would repeat for ever)
+        first = ({"n": "H", "t": [q], "c": None, "p": None} if draw(st.booleans())
+                 else {"n": draw(st.sampled_from(["RY", "RX"])), "t": [q], "c": None, "p": draw(st.floats(0.6, 2.6))})
+        retry = [first] + draw(st.lists(S.gate_recs(width, angle=ang), min_size=0, max_size=2))
+        if draw(st.integers(0, 7)) == 0:
+            retry = retry[1:]
         return {"kind": "func_rus", "fail": draw(st.sampled_from(["0", "1"])), "retry": retry, "q": q,
                 "done": draw(progs(width, 2, 1, 0, False, angle=ang))}
     keys = draw(st.lists(st.sampled_from(["0", "1", "00", "01", "10", "11", "000", "001", "010", "011", "100", "101", "110", "111"]),
@@ -408,9 +410,9 @@ def controls(draw, width, depth, kind):
 def cmeasure_cases(draw, max_width=4, max_unitary=10, max_meas=3, depth=2, cap_meas=8, max_paths=32, kinds=None):
     """Circuits with at least one CMEASURE; control by dictionary, function or ClassicalControl class."""
     width = draw(st.integers(1, max_width))
-    kind = draw(st.sampled_from(kinds or ["dict", "dict", "func_table", "func_rus", "class_hist", "class_hist"]))
+    kind = draw(st.sampled_from(kinds or ["class_hist", "dict", "func_rus", "func_table", "dict", "class_hist"]))
     ctrl = None if kind == "dict" else draw(controls(width, depth - 1, kind))
-    gates = draw(progs(width, max_unitary, max_meas, depth, ctrl is not None, angle=_angles(), prelude=True))
+    gates = draw(progs(width, max_unitary, max_meas, depth, ctrl is not None, angle=_angles(), prelude=True, min_meas=1))
     if ctrl is not None and not any(g["n"] == "CMEASURE" and g.get("d") is None for g in gates):
         gates.insert(draw(st.integers(0, len(gates))), {"n": "CMEASURE", "t": [draw(st.integers(0, width - 1))], "c": None, "p": None})
     if ctrl is None and not any(g["n"] == "CMEASURE" for g in gates):
